@@ -53,6 +53,21 @@ def oracle(line: str, obs: Obs):
                 if served:
                     fails.append({"what": "a connection arriving while the node is stopping was served / a peer was dialled",
                                   "event": ev[:200], "real": str(served)[:300]})
+            # a connection whose DPA arrived and whose output could be flushed is closed then, not at the timeout
+            for w in t[3:]:
+                wt = w.split("_")
+                if wt[0] == "block" and wt[2] == "0":
+                    c = f"c{wt[1]}"
+                    owner = [kv(l) for l in lines if l.startswith("PEER ")]
+                    reasons = [p["reason"] for p in owner]
+                    closes = [l for l in lines if l.startswith(f"CONN {c} ")]
+                    # the block of the nested event in which the buffer drained must already show it closed
+                    idx = next((i for i, l in enumerate(lines) if l.startswith("EVN block")), None)
+                    if idx is not None:
+                        after = [kv(l) for l in lines[idx:] if l.startswith(f"CONN {c} ")]
+                        if after and after[0]["live"] == "1":
+                            fails.append({"what": "connection not closed once its DPA had arrived and its pending output was flushed "
+                                                  "(it sat out the wait timeout)", "event": ev[:200], "real": str(after[0])})
             if not any(l == "STOPPED" for l in lines):
                 fails.append({"what": "stop() did not return normally", "event": ev[:200],
                               "real": str([l for l in lines if l.startswith(("RAISE", "CRASH"))])})
@@ -111,6 +126,14 @@ def scenarios(rng: random.Random, tier: str):
             elif beh == "dpa_then_more":
                 nested.append(f"rx_{c}_" + nodegen.dpa(n(), n(), nm))
                 nested.append(f"rx_{c}_" + nodegen.dwr(n(), n(), nm))
+        # output backed up while the DPA arrives, then the peer drains it
+        blocked = []
+        if conn_ready and not force and rng.random() < 0.35:
+            c, nm = rng.choice(conn_ready)
+            evs.append(f"block {c} 1")
+            blocked.append(c)
+            nested = [x for x in nested if not x.startswith((f"rx_{c}_", f"eof_{c}"))]
+            nested += [f"rx_{c}_" + nodegen.dpa(n(), n(), nm), f"block_{c}_0"]
         if rng.random() < 0.3:
             nested.append("acc")
         if rng.random() < 0.2:
